@@ -5,6 +5,9 @@
 #include "interrogate_request.h"
 
 #include <fstream>
+#include <sstream>
+#include <cstring>
+#include <cstdlib>
 
 extern "C" int
 verif_idb_write(const char *path, InterrogateModuleDef *def) {
@@ -15,4 +18,22 @@ verif_idb_write(const char *path, InterrogateModuleDef *def) {
   InterrogateDatabase::get_ptr()->write(out, def);
   out.close();
   return out.fail() ? 2 : 0;
+}
+
+// The same into memory: returns a malloc'ed buffer (length in *len); the caller frees it with verif_idb_free.
+extern "C" char *
+verif_idb_write_mem(InterrogateModuleDef *def, int *len) {
+  std::ostringstream out;
+  InterrogateDatabase::get_ptr()->write(out, def);
+  std::string s = out.str();
+  char *buf = (char *)malloc(s.size() + 1);
+  memcpy(buf, s.data(), s.size());
+  buf[s.size()] = 0;
+  *len = (int)s.size();
+  return buf;
+}
+
+extern "C" void
+verif_idb_free(char *buf) {
+  free(buf);
 }
